@@ -86,18 +86,12 @@ class CollectiveAnomalyDetector(BaseDetector):
         # The sparse format only uses integer positions, so we reset the index.
         y_dense = y_dense["labels"].reset_index(drop=True)
 
-        y_anomaly = y_dense.loc[y_dense.values > 0]
-        anomaly_locations_diff = y_anomaly.index.diff()
-
-        first_anomaly_start = y_anomaly.index[:1].to_numpy()
-        anomaly_starts = y_anomaly.index[anomaly_locations_diff > 1]
-        anomaly_starts = np.insert(anomaly_starts, 0, first_anomaly_start)
-
-        last_anomaly_end = y_anomaly.index[-1:].to_numpy() + 1
-        anomaly_ends = y_anomaly.index[np.roll(anomaly_locations_diff > 1, -1)] + 1
-        anomaly_ends = np.insert(anomaly_ends, len(anomaly_ends), last_anomaly_end)
-
-        anomaly_intervals = list(zip(anomaly_starts, anomaly_ends))
+        labels = y_dense.to_numpy()
+        anomaly_intervals = []
+        # One interval per label, so that adjacent anomalies are kept apart.
+        for label in np.unique(labels[labels > 0]):
+            anomaly_positions = np.flatnonzero(labels == label)
+            anomaly_intervals.append((anomaly_positions[0], anomaly_positions[-1] + 1))
         return CollectiveAnomalyDetector._format_sparse_output(
             anomaly_intervals, closed="left"
         )
